@@ -588,6 +588,10 @@ def run(pm, ctx):
     run_decisions(pm, ctx, 'C08-RD', OWN['C08'])
     from .. import exprdrift
     exprdrift.run(pm, ctx, 'C08-RE', OWN['C08'])
+    from ..conddrift import run_calls
+    run_calls(pm, ctx, 'C08-RC', OWN['C08'])
+    from .. import memo
+    memo.run(pm, ctx, 'C08-MK', OWN['C08'])
 
 
 def _anchoring(init_func, method):
